@@ -7,7 +7,7 @@ Tie: every unit string the gas-constant table accepts (and rejected spellings) x
 S_elements flags against the model driver.  Oracle: the product identities, G = H - T*S, the unit ratios, the hand-written
 conversion factors and the elemental offset computed from an independent atom count, directly on the implementation.
 """
-import math
+import math, json
 from fractions import Fraction
 from . import common
 from . import lib_estimate as L
@@ -317,6 +317,11 @@ def estimate_cases(ctx, batch, keys, stripped, rej):
             cnt = {}
             for z in atoms or []:
                 cnt[z] = cnt.get(z, 0) + 1
+            if getattr(info.lib, 'name', None) != smi:
+                # the library's record of the molecule it decomposed last is what the elemental reference is computed from
+                ctx.violation('after decomposing a molecule the library does not hold it as the molecule of the estimate that follows '
+                              '(the elemental reference is then that of another molecule)', c.input, smi, getattr(info.lib, 'name', None))
+                continue
             if atoms is None or cnt != atom_count_oracle(smi):
                 raise common.MachineryError('atom count of %r differs between AddHs and the heavy-atom/H-count route' % smi)
             ctx.count('molecules')
@@ -373,6 +378,71 @@ def correlation_cases(ctx, batch, keys, stripped, rej):
                 batch.append(('corr', (info, nm, T, units, flags, ev, inp, req)))
 
 
+MUT_TABLES = [{300.0: 2.0, 500.0: 2.5, 1000.0: 3.0}, {298.15: 4.0, 400.0: 4.4, 600.0: 5.1, 800.0: 5.5, 1200.0: 6.0}, {350.0: 1.25}]
+
+
+def mutation_case(ctx, kind, how, ti, T, u):
+    """the dimensional getters of an object that was already asked at T, after its data changed in place: they are the
+    non-dimensional getters of the SAME object NOW times R (and T) — for a group correlation (update / withdrawn point)
+    and for an estimate whose library was revised with overwrite"""
+    import warnings
+    from pgradd.ThermoChem import ThermochemGroup
+    from pgradd.GroupAdd.Library import GroupLibrary
+    from pgradd.GroupAdd.Group import Group
+    table = dict(MUT_TABLES[ti])
+    rngT = (200.0, 1500.0)
+    inp = {'object': kind, 'change': how, 'table': sorted(table.items()), 'T': T, 'units': u, 'mutation': True, 'ti': ti}
+    with warnings.catch_warnings(), L.quiet():
+        warnings.simplefilter('ignore')
+        g = ThermochemGroup(-12.5, 3.25, table, 298.15, rngT)
+        g2 = ThermochemGroup(7.0, 1.5, dict(table), 298.15, rngT)
+        if kind == 'estimate':
+            lib = GroupLibrary(None, [(Group.parse(None, 'C(C)(H)3'), {L.SET: g}), (Group.parse(None, 'C(C)2(H)2'), {L.SET: g2})])
+            obj = lib.Estimate({'C(C)(H)3': 2, 'C(C)2(H)2': 1}, L.SET)
+        else:
+            obj = g
+        su = u + '/K'
+
+        def dims():
+            return {'H': obj.get_H(T, u), 'G': obj.get_G(T, u), 'S': obj.get_S(T, su), 'Cp': obj.get_Cp(T, su)}
+        before = dims()
+        rev = ThermochemGroup(-9.0, 4.5, dict((t, v + 0.75) for t, v in table.items()), 298.15, rngT)
+        if how == 'update':
+            if kind == 'estimate':
+                lib.Update(GroupLibrary(None, [(Group.parse(None, 'C(C)(H)3'), {L.SET: rev})]), overwrite=True)
+            else:
+                g.update(rev, overwrite=True)
+        else:
+            tx = 0.5 * (min(table) + 250.0) if len(table) == 1 else 0.5 * (sorted(table)[0] + sorted(table)[1])
+            more = ThermochemGroup(None, None, {tx: 9.5}, 298.15, rngT)
+            g.update(more)
+            dims()
+            g.del_ND_Cp(tx)
+            g.update(rev, overwrite=True)
+        after = dims()
+        R = L.rfactor(su)
+        want = {'H': obj.get_HoRT(T) * T * R, 'G': obj.get_GoRT(T) * T * R, 'S': obj.get_SoR(T) * R, 'Cp': obj.get_CpoR(T) * R}
+    ctx.count('mutation_cases')
+    ctx.case(json.dumps([kind, how, ti, T, u]), None)
+    for k in ('H', 'G', 'S', 'Cp'):
+        if not rel_close(float(after[k]), float(want[k])):
+            ctx.violation('%s of an object whose data changed in place is not its own non-dimensional value times R%s' % (k, '·T' if k in 'HG' else ''),
+                          dict(inp, quantity=k), float(want[k]), float(after[k]))
+            return
+    if all(rel_close(float(before[k]), float(after[k])) for k in ('H', 'S')):
+        raise common.MachineryError('mutation case changed nothing: %r' % (inp,))
+
+
+def mutation_cases(ctx):
+    for kind in ('group correlation', 'estimate'):
+        for how in ('update', 'withdrawn point'):
+            for ti in range(len(MUT_TABLES)):
+                for T in (300.0, 512.5) if not ctx.thorough() else (250.0, 298.15, 300.0, 512.5, 1000.0, 1400.0):
+                    for u in ('kJ/mol', 'kcal/mol') if not ctx.thorough() else ('kJ/mol', 'kcal/mol', 'J/mol', 'cal/mol', 'eV'):
+                        if L.rfactor(u + '/K') is not None:
+                            mutation_case(ctx, kind, how, ti, T, u)
+
+
 def run(ctx):
     batch = []
     keys, stripped, rej = unit_universe()
@@ -387,6 +457,7 @@ def run(ctx):
     t1 = time.time()
     correlation_cases(ctx, batch, keys, stripped, rej)
     deferred_elemental(ctx)
+    mutation_cases(ctx)
     t2 = time.time()
     ctx.extra.setdefault('coverage', {})['phase_seconds'] = {'estimates': round(t1 - t0, 1), 'group_correlations': round(t2 - t1, 1)}
     reqs = [dict(x.request, op='c07.estimate') if kind == 'est' else x[7] for kind, x in batch]
@@ -413,6 +484,9 @@ def replay(ctx, rec):
     inp = rec.get('input', rec)
     before = len(ctx.violations)
     keys, stripped, rej = unit_universe()
+    if inp.get('mutation'):
+        mutation_case(ctx, inp['object'], inp['change'], inp['ti'], inp['T'], inp['units'])
+        return len(ctx.violations) == before
     if inp.get('object') == 'group correlation':
         info = L.shipped(inp['library'])
         T = L.dec_num(inp['T'])
